@@ -30,8 +30,15 @@ func c11Discovery(k int) {
 		u.broadcastAddr = types.BroadcastAddrFrom(netip.AddrFrom4([4]byte{192, 168, 1, 255}), port)
 	}
 	devices, err := u.GetDevices()
-	verifAssert(err == nil, "GetDevices: malformed datagrams never make the call fail")
 	verifAssert(d.calls == 1 && d.method == "Broadcast", "GetDevices: one broadcast")
+	c11Check(replies, devices, err, cid, port)
+	verifReach("c11.discovery")
+}
+
+// c11Check: devices is, in arrival order, exactly one entry per well-formed reply.
+func c11Check(replies [][]byte, devices []types.Device, err error, cid uint32, port uint16) {
+	k := len(replies)
+	verifAssert(err == nil, "GetDevices: malformed datagrams never make the call fail")
 	j := 0
 	for i := 0; i < k; i++ {
 		m := replies[i]
@@ -58,7 +65,6 @@ func c11Discovery(k int) {
 	}
 	verifObserve("n", len(devices))
 	verifAssert(len(devices) == j, "GetDevices: nothing for malformed datagrams, one entry per well-formed reply (duplicates included)")
-	verifReach("c11.discovery")
 }
 
 func VerifC11_Discovery0() { c11Discovery(0) }
